@@ -14,6 +14,12 @@ the call is made), `if err != nil { return err }`, `app.handleCommand(cmd)` (the
 value a `return` returns is part of the result (`true` = a non-nil error).
 `Props/C15Body.lean` proves that the result is `eHandleEvent` — the function the routing theorems
 are about — for every oracle, state and event.  Anything outside the subset is `none`.
+
+Round 3 added the bodies of `mouseHandler.handleEvent`, `focusHandler.focusWidget`, `mouseHandler.mouseExit` /
+`mouseEnter` to this first layer (`exec` / `atom`).  Round 4 adds a SECOND layer (`execX` / `atomX`, end of the file)
+for `mouseHandler.update` (hit results as structs, nested `range` loops with a labelled `continue`),
+`focusHandler.updatePath` and `App.handleCommand` (type switch, recursion on batches), and `bRun`: the `Run` loop
+calling the interpreted bodies.
 -/
 import VaxisModel.Model.GoSyn
 import VaxisModel.Model.DynExec
